@@ -86,7 +86,7 @@ def run_one(schema: dict, rng, exercise: int) -> dict:
                 if (term, exp) not in seen_rc and len(render_cases) < 60:
                     seen_rc.add((term, exp))
                     render_cases.append([term, exp])
-                # the defaultdict factory is the rendering of the value type pasted as code (unpack.py:1281-1288)
+                # the defaultdict factory is the identifier of the value type pasted as code (unpack.py unpack_collection, defaultdict branch)
                 import collections as _c
                 import typing as _t
                 if _t.get_origin(t) is _c.defaultdict and len(_t.get_args(t)) == 2 and c in d.get("ROOTS", []):
@@ -96,11 +96,14 @@ def run_one(schema: dict, rng, exercise: int) -> dict:
                         fexp = None
                     own_f = [rec["code"] for rec in sr.programs
                              if f"Argument for {c.__module__}.{c.__qualname__}.__mashumaro_from_" in rec["code"] and "collections.defaultdict(" in rec["code"]]
-                    if fexp is not None and "<locals>" not in fexp:
+                    if fexp is not None:
+                        # a type reference like every other one (get_type_name_identifier): the rendering itself, or its
+                        # clean_id alias when the rendering names a local class
+                        fid = c17_run.clean(fexp) if "<locals>" in fexp else fexp
                         for code in own_f:
                             contain["checked"] += 1
-                            if f"collections.defaultdict({fexp}, " not in code:
-                                contain["missing"].append(f"{c.__name__}.{fn}: defaultdict factory {fexp}")
+                            if f"collections.defaultdict({fid}, " not in code:
+                                contain["missing"].append(f"{c.__name__}.{fn}: defaultdict factory {fid}")
                 fld = next((f for f in dataclasses.fields(c) if f.name == fn), None)
                 if (c in d.get("ROOTS", []) and fld is not None and fld.default is dataclasses.MISSING
                         and fld.default_factory is dataclasses.MISSING and fld.init):
